@@ -10,7 +10,7 @@ PRELOAD = ["scenic.core.regions", "scenic.core.object_types"]
 LEVEL = "other"
 EXPLANATION = (
     "The overlap / containment tests are multi-pass decision procedures over answers of geometry libraries. "
-    "The real procedures (MeshVolumeRegion.intersects passes 1-5, Object.intersects and minimumDistanceTo with "
+    "The real procedures (MeshVolumeRegion.intersects passes 1-5, MeshVolumeRegion.containsObject passes 1-5, Object.intersects and minimumDistanceTo with "
     "their planar-box fast paths and the _isPlanarBox predicate, PolygonalFootprintRegion.containsObject) are "
     "executed symbolically; every library answer (FCL collision, point-in-mesh, boolean-operation emptiness, "
     "polygon predicates, precomputed radii, bounding boxes) is a symbolic value tied to ONE ground-truth "
@@ -21,7 +21,7 @@ EXPLANATION = (
 MANIFEST_ENTRY = {
     "category": "other",
     "text": "Bounded symbolic checking of the real multi-pass overlap / containment procedures over abstract library answers constrained by geometric axioms: every shortcut (bounding spheres and boxes, inradius test, FCL surface test, convex shortcut, interior-point test, planar-box fast paths, hull shortcut) returns the ground truth for all consistent valuations.",
-    "note": "Trusted: CrossHair, z3, the geometric axioms (each a textbook fact), reals for floats. Outside: that trimesh / FCL / shapely compute correct answers on concrete meshes, the precomputation of interior points and radii, tolerance behaviour at touching configurations, MeshVolumeRegion.containsObject passes 2-4 (vectorised numpy over vertex arrays).",
+    "note": "Trusted: CrossHair, z3, the geometric axioms (each a textbook fact), reals for floats. Outside: that trimesh / FCL / shapely compute correct answers on concrete meshes, tolerance behaviour at touching configurations. The precomputed interior points and radii that the symbolic obligations take as inputs are checked concretely (5 shapes x 3 dimension triples x 3 poses) as an auxiliary ground check, not by the solver.",
 }
 ASSUMPTIONS = [
     "A1 overlap => distance of positions <= sum of circumradii",
@@ -259,6 +259,215 @@ def h_footprint_contains_object(ctx):
     ctx.check("footprint-containment-returns-the-ground-truth", contained if got else E.sym_not(contained))
 
 
+# ------------------------------------------------------------------ MeshVolumeRegion.containsObject, passes 1-5
+CONTAIN_AXIOMS = [
+    "B1 contained => the axis-aligned bounding boxes overlap in all three dimensions",
+    "B2 region convex: (all vertices of the object strictly inside <=> contained); all corners of the object's bounding box strictly inside => all vertices strictly inside",
+    "B3 the candidate point of the object lies in the object: contained => the region contains it; region contains it and its distance to the region's surface exceeds the object's circumradius about it => contained",
+    "B4 contained => every vertex of the object is within the region's circumradius about the region's candidate point",
+    "B5 boolean difference object - region empty <=> contained",
+]
+
+
+def h_volume_contains_object(ctx):
+    import scenic.core.regions as R
+    from scenic.core.vectors import Vector
+
+    contained = ctx.bool("object_contained_in_region")
+    region_convex = ctx.flag("region.convex")
+    obj_convex = ctx.flag("object.convex")
+    bb_corners_inside = ctx.bool("all_bounding_box_corners_strictly_inside")
+    verts_inside = ctx.bool("all_object_vertices_strictly_inside")
+    pos_in_obj = ctx.flag("object_contains_its_position")
+    obj_sample_ok = ctx.flag("object_volume_sample_succeeds")
+    cand_in_region = ctx.bool("region_contains_object_candidate_point")
+    r_obj = ctx.real("object_circumradius_about_candidate", 0, None)
+    d_reg = ctx.real("distance_candidate_to_region_surface", 0, None)
+    centre_in_region = ctx.flag("region_contains_its_bounding_box_centre")
+    reg_sample_ok = ctx.flag("region_volume_sample_succeeds")
+    r_reg = ctx.real("region_circumradius_about_candidate", 0, None)
+    d_obj_max = ctx.real("max_distance_object_vertex_to_region_candidate", 0, None)
+    diff_empty = ctx.bool("boolean_difference_empty")
+    rb, ob = Bounds(ctx, "region"), Bounds(ctx, "object")
+
+    # ---- axioms
+    ctx.assume(E.sym_implies(contained, E.sym_and(*[E.sym_and(rb[0, d] <= ob[1, d], ob[0, d] <= rb[1, d]) for d in range(3)])))
+    if region_convex:
+        ctx.assume(E.sym_or(E.sym_and(verts_inside, contained), E.sym_and(E.sym_not(verts_inside), E.sym_not(contained))))
+        ctx.assume(E.sym_implies(bb_corners_inside, verts_inside))
+    ctx.assume(E.sym_implies(contained, cand_in_region))
+    ctx.assume(E.sym_implies(E.sym_and(cand_in_region, d_reg > r_obj), contained))
+    ctx.assume(E.sym_implies(contained, d_obj_max <= r_reg))
+    ctx.assume(E.sym_or(E.sym_and(diff_empty, contained), E.sym_and(E.sym_not(diff_empty), E.sym_not(contained))))
+
+    class Verts:
+        def __init__(self, who):
+            self.who = who
+
+        def __sub__(self, point):
+            return ("diff", self.who, point.who if hasattr(point, "who") else "pt")
+
+    class Pt(Vector):
+        pass
+
+    def mkpt(who):
+        p = Pt(0.0, 0.0, 0.0)
+        object.__setattr__(p, "who", who) if False else None
+        return p
+
+    class Cand:
+        """A point identified by a tag (coordinates are never inspected by containsObject itself)."""
+
+        def __init__(self, who):
+            self.who = who
+
+    class Mesh:
+        def __init__(self, who, bounds):
+            self.who, self.bounds, self.vertices = who, bounds, Verts(who)
+
+    class BB:
+        center_mass = ("region-centre",)
+
+    reg_mesh = Mesh("region", rb)
+    reg_mesh.bounding_box = BB()
+
+    class Space:
+        mesh = Mesh("object", ob)
+        num_samples = 1
+
+        @staticmethod
+        def difference(other):
+            return R.nowhere if (True if diff_empty else False) else "non-empty-volume"
+
+    class BBox:
+        mesh = Mesh("object-bb", ob)
+
+    class Obj:
+        occupiedSpace = Space()
+        boundingBox = BBox()
+        position = Cand("object-candidate")
+        _isConvex = obj_convex
+
+        @staticmethod
+        def containsPoint(p):
+            return pos_in_obj
+
+    class Marker:
+        def __init__(self, what):
+            self.what = what
+
+        def __gt__(self, zero):
+            return Marker(self.what)
+
+    class PQ:
+        def __init__(self, mesh):
+            pass
+
+        def signed_distance(self, pts):
+            if isinstance(pts, Verts):
+                return Marker("bb" if pts.who == "object-bb" else "verts")
+            return [d_reg]
+
+    class TM:
+        class proximity:
+            ProximityQuery = PQ
+
+        class sample:
+            @staticmethod
+            def volume_mesh(mesh, n):
+                ok = obj_sample_ok if mesh.who == "object" else reg_sample_ok
+                return [("sample", mesh.who)] if ok else []
+
+    class NP:
+        @staticmethod
+        def all(m):
+            return bb_corners_inside if m.what == "bb" else verts_inside
+
+        @staticmethod
+        def max(x):
+            _tag, who, about = x
+            if who == "object":
+                return r_obj if about == "object-candidate" else d_obj_max
+            return r_reg
+
+        class linalg:
+            @staticmethod
+            def norm(diff, axis=None):
+                return diff
+
+    def fake_vector(*coords):
+        c = Cand("object-candidate" if coords and coords[0] == "sample" and coords[1] == "object" else "region-candidate")
+        return c
+
+    reg = object.__new__(R.MeshVolumeRegion)
+    d = reg.__dict__
+    d["mesh"] = reg_mesh
+    d["isConvex"] = region_convex
+    d["_cached_isConvex"] = region_convex
+    d["_num_samples"] = 1
+    d["containsPoint"] = lambda p: (cand_in_region if p.who == "object-candidate" else centre_in_region)
+    for k in list(d):  # cached properties read their private storage slot
+        d["_cached_" + k] = d[k]
+    saved = (R.trimesh, R.numpy, R.Vector)
+    R.trimesh, R.numpy, R.Vector = TM, NP, fake_vector
+    try:
+        f = R.MeshVolumeRegion.containsObject
+        got = f.__wrapped__(reg, Obj()) if hasattr(f, "__wrapped__") else f(reg, Obj())
+    finally:
+        R.trimesh, R.numpy, R.Vector = saved
+    got = True if got else False
+    ctx.check("multi-pass-volume-containment-returns-the-ground-truth", contained if got else E.sym_not(contained),
+              region_convex=region_convex, object_convex=obj_convex)
+
+
+# ------------------------------------------------------------------ precomputed geometry of scaled shapes (ground)
+def g_precomputed_geometry():
+    """Concrete auxiliary check: for every built-in shape and a non-convex multi-body-free mesh, with non-unit
+    dimensions and generic poses, the precomputed interior point lies inside the solid, the inradius ball about it
+    lies inside and the circumradius balls contain every vertex."""
+    import numpy
+    import trimesh
+
+    from scenic.core.object_types import Object
+    from scenic.core.shapes import BoxShape, ConeShape, CylinderShape, MeshShape, SpheroidShape
+    from scenic.core.vectors import Orientation, Vector
+
+    u = trimesh.util.concatenate([trimesh.creation.box(extents=(3, 1, 1), transform=trimesh.transformations.translation_matrix((0, -1, 0))),
+                                  trimesh.creation.box(extents=(1, 1, 1), transform=trimesh.transformations.translation_matrix((-1, 0, 0))),
+                                  trimesh.creation.box(extents=(1, 1, 1), transform=trimesh.transformations.translation_matrix((1, 0, 0)))])
+    ushape = trimesh.boolean.union([trimesh.creation.box(extents=(3, 1, 1), transform=trimesh.transformations.translation_matrix((0, -1, 0))),
+                                    trimesh.creation.box(extents=(1, 1.5, 1), transform=trimesh.transformations.translation_matrix((-1, -0.25, 0))),
+                                    trimesh.creation.box(extents=(1, 1.5, 1), transform=trimesh.transformations.translation_matrix((1, -0.25, 0)))])
+    shapes = [("box", BoxShape()), ("cone", ConeShape()), ("cylinder", CylinderShape()), ("spheroid", SpheroidShape()),
+              ("u-mesh", MeshShape(ushape))]
+    cases = 0
+    bad = []
+    for sname, shape in shapes:
+        for dims in ((1, 1, 1), (2, 0.5, 3), (0.3, 4, 1.5)):
+            for pose in ((0, 0, 0), (0.7, 0, 0), (0.4, -0.9, 1.3)):
+                o = Object._with(shape=shape, width=dims[0], length=dims[1], height=dims[2], position=Vector(3, -2, 5),
+                                 yaw=pose[0], pitch=pose[1], roll=pose[2])
+                reg = o.occupiedSpace
+                ip = numpy.asarray(reg._interiorPoint, dtype=float)
+                inr, circ = reg._interiorPointRadii
+                verts = numpy.asarray(reg.mesh.vertices)
+                cases += 1
+                tag = f"{sname} dims={dims} pose={pose}"
+                if not reg.mesh.contains([ip])[0]:
+                    bad.append(f"{tag}: interior point {ip.round(3).tolist()} outside the solid")
+                    continue
+                surf = abs(trimesh.proximity.ProximityQuery(reg.mesh).signed_distance([ip])[0])
+                if inr > surf + 1e-6:
+                    bad.append(f"{tag}: inradius {inr:.4f} exceeds the distance {surf:.4f} to the surface")
+                far = numpy.linalg.norm(verts - ip, axis=1).max()
+                if circ < far - 1e-6:
+                    bad.append(f"{tag}: interior-point circumradius {circ:.4f} < farthest vertex {far:.4f}")
+                farp = numpy.linalg.norm(verts - numpy.asarray(o.position.coordinates), axis=1).max()
+                if reg._circumradius < farp - 1e-6:
+                    bad.append(f"{tag}: circumradius {reg._circumradius:.4f} < farthest vertex from position {farp:.4f}")
+    return (not bad, "; ".join(bad[:4]), cases)
+
+
 def obligations(tier, seed):
     import scenic.core.object_types as OT
     import scenic.core.regions as R
@@ -275,4 +484,11 @@ def obligations(tier, seed):
                    [OT.Object.minimumDistanceTo, OT.Object._isPlanarBox.fget], ["planar boxes at equal height: gap == footprint distance"], opts=o),
         Obligation("footprint-contains-object", h_footprint_contains_object, "PolygonalFootprintRegion.containsObject hull shortcut", {},
                    [R.PolygonalFootprintRegion.containsObject], [ASSUMPTIONS[7]], opts=o),
+        Obligation("volume-contains-object", h_volume_contains_object, "MeshVolumeRegion.containsObject, passes 1-5",
+                   {"flags": "convexity / candidate-point availability symbolic", "library answers": "symbolic under axioms B1-B5"},
+                   [R.MeshVolumeRegion.containsObject], CONTAIN_AXIOMS, opts=o),
+        Obligation("precomputed-geometry[ground]", None, "interior point inside the solid, inradius ball inside, circumradius balls contain all vertices: "
+                   "5 shapes x 3 dimension triples x 3 poses (concrete auxiliary check of the quantities the symbolic obligations take as inputs)",
+                   {"shapes": 5, "dimensions": 3, "poses": 3}, [R.MeshVolumeRegion._interiorPoint.func if hasattr(R.MeshVolumeRegion._interiorPoint, "func") else R.MeshVolumeRegion.intersects],
+                   ["trimesh point-in-mesh and proximity queries as oracle"], ground=g_precomputed_geometry),
     ]
